@@ -11,6 +11,7 @@ import (
 	"os"
 	"path/filepath"
 	"strings"
+	"sync"
 
 	"github.com/gkampitakis/go-snaps/match"
 	"github.com/kr/pretty"
@@ -33,6 +34,27 @@ type CfgSpec struct {
 	Ext      string   `json:"ext,omitempty"`
 	Update   *bool    `json:"update,omitempty"`
 	JSON     *JSONCfg `json:"json,omitempty"`
+	// PkgLevel: the call goes through the package-level function (snaps.MatchSnapshot(t, …)) instead of a Config method.
+	// Only meaningful without Filename/Ext/Update/JSON. The harness points the package default directory at the scratch
+	// directory for the duration of the call (the default is relative to the source file otherwise).
+	PkgLevel bool `json:"package_level,omitempty"`
+}
+
+// package-level calls: build() returns a marker *Config; invoke recognises it and calls the package-level function
+var (
+	pkgLevelMu      sync.Mutex
+	pkgLevelMarkers = map[*Config]string{}
+)
+
+func pkgLevelDir(cfg *Config) (string, bool) {
+	pkgLevelMu.Lock()
+	defer pkgLevelMu.Unlock()
+	d, ok := pkgLevelMarkers[cfg]
+	return d, ok
+}
+
+func (c CfgSpec) pkgLevelOK() bool {
+	return c.PkgLevel && c.Filename == "" && c.Ext == "" && c.Update == nil && c.JSON == nil
 }
 
 // dirArg: the (absolute) directory as handed to snaps.Dir – possibly spelled non-canonically.
@@ -52,6 +74,16 @@ func (c CfgSpec) dirArg(root string) string {
 }
 
 func (c CfgSpec) build(root string) *Config {
+	if c.pkgLevelOK() {
+		marker := &Config{}
+		pkgLevelMu.Lock()
+		if len(pkgLevelMarkers) > 4096 {
+			pkgLevelMarkers = map[*Config]string{}
+		}
+		pkgLevelMarkers[marker] = c.dirArg(root)
+		pkgLevelMu.Unlock()
+		return marker
+	}
 	opts := []func(*Config){Dir(c.dirArg(root))}
 	if c.Filename != "" {
 		opts = append(opts, Filename(c.Filename))
@@ -242,15 +274,29 @@ func (c Call) invoke(cfg *Config, t *fakeT) callResult {
 	}
 	inputOK := true
 	doc := string(c.Doc)
+	pkgDir, pkgLevel := pkgLevelDir(cfg)
+	if pkgLevel {
+		old := defaultConfig.snapsDir
+		defaultConfig.snapsDir = pkgDir
+		defer func() { defaultConfig.snapsDir = old }()
+	}
 	switch c.API {
 	case "snap":
 		vals := make([]any, len(c.Vals))
 		for i, v := range c.Vals {
 			vals[i] = v.Go()
 		}
-		cfg.MatchSnapshot(t, vals...)
+		if pkgLevel {
+			MatchSnapshot(t, vals...)
+		} else {
+			cfg.MatchSnapshot(t, vals...)
+		}
 	case "ssnap":
-		cfg.MatchStandaloneSnapshot(t, c.Vals[0].Go())
+		if pkgLevel {
+			MatchStandaloneSnapshot(t, c.Vals[0].Go())
+		} else {
+			cfg.MatchStandaloneSnapshot(t, c.Vals[0].Go())
+		}
 	case "json", "sjson":
 		var in any
 		var check func() bool
@@ -266,9 +312,14 @@ func (c Call) invoke(cfg *Config, t *fakeT) callResult {
 			in = s
 			check = func() bool { return s == doc }
 		}
-		if c.API == "json" {
+		switch {
+		case c.API == "json" && pkgLevel:
+			MatchJSON(t, in, jm...)
+		case c.API == "json":
 			cfg.MatchJSON(t, in, jm...)
-		} else {
+		case pkgLevel:
+			MatchStandaloneJSON(t, in, jm...)
+		default:
 			cfg.MatchStandaloneJSON(t, in, jm...)
 		}
 		if check != nil {
@@ -289,7 +340,11 @@ func (c Call) invoke(cfg *Config, t *fakeT) callResult {
 			in = s
 			check = func() bool { return s == doc }
 		}
-		cfg.MatchYAML(t, in, ym...)
+		if pkgLevel {
+			MatchYAML(t, in, ym...)
+		} else {
+			cfg.MatchYAML(t, in, ym...)
+		}
 		if check != nil {
 			inputOK = check()
 		}
